@@ -19,7 +19,7 @@ CHECKS.update({
    "Seeded random block trees (forks, competing branches, clock-driven uneven difficulty, single-rule-invalid blocks anywhere) are delivered in seeded orders with duplicates to the REAL chain stages (insert/preload/verify/orphan cleaner) stepped by the simulator; the final tip must carry the maximal work of any fully valid chain formable from the delivered set, the tip history must have strictly increasing work, every connectable block must be connected. Node panics are violations. Exploration is the right level: the space of trees x permutations x interleavings is unbounded; each run is exactly replayable from its scenario file."),
  "C02": node("§6 C02, §4 simnode", "deterministic simulation of reorg histories with snapshot readers and restarts; full column-by-column comparison with a replay model",
    "At every quiescent point, after every restart and inside every snapshot captured at a simulator-chosen step, every row of the canonical-chain columns (cells, cell data, tx info, index, uncles, epochs, block ext, MMR roots) is compared with the model's replay of the stored tip's chain."),
- "C03": node("§6 C03, §4 simnode", "deterministic simulation: model-built valid blocks (incl. real proof-of-work nonces mined by the model and boundary timestamps against the simulated node clock) and single-rule mutants delivered in random histories through the pipeline header check (as submit_block runs it) then chain stages; refusal atomicity checked against the replay model",
+ "C03": node("§6 C03, §4 simnode", "deterministic simulation: model-built valid blocks (incl. real proof-of-work nonces mined by the model and boundary timestamps against the simulated node clock) and single-rule mutants (incl. blocks one byte / one transaction / one proposal above small consensus limits, with valid blocks exactly at them) delivered in random histories through the pipeline header check (as submit_block runs it) then chain stages; refusal atomicity checked against the replay model",
    "Blocks valid by construction (independent builder) must pass the header stage at the node's simulated clock and be attached when heaviest; blocks with exactly one named rule violation (header: timestamp at the past median, number, malformed epoch, nonce above target; structure: cellbase shape, merkle commitments, duplicates; DAO, target, epoch, reward, extension/chain root; seven uncle rules; two-phase commit, time locks, rule-breaking transactions) anywhere in the tree must never be attached or marked verified, header-only mutants must be refused by the header stage, and a refused reorganisation must leave the stored state equal to the old tip's replay. Two genuine panics found and fixed (c8f575a, c75ef89)."),
  "C06": node("§6 C06, §4 simnode", "deterministic simulation with an independent issuance model (reward split, first-proposer rule, DAO accumulation) as block builder and monitor",
    "Every cellbase and DAO field is computed by the model from the property text; the node must accept exactly those blocks and reject +-1 mutants; header U must equal the occupied capacity of the stored live cells; every main-chain cellbase must equal the property-text reward. One genuine deviation (proposer share for target block 1) is a recorded known finding."),
@@ -46,11 +46,11 @@ def pool(design, technique, text):
 CHECKS.update({
  "C11": pool("§6 C11, §4 simnode pool task mode", "deterministic simulation of pool operation histories (submit/RBF/remove/expire/evict/reorg) with hand-polled pool tasks; full recomputation of the pool's bookkeeping from a dump after every task",
    "After every completed pool task the dump of entries, links, edges, ancestor/descendant aggregates, per-status counters and totals is recomputed from the entries alone and compared; the ancestor limit and double-spend freedom are checked. Two genuine defects in the incremental aggregate maintenance were found and fixed."),
- "C04": pool("§6 C04, §4 simnode pool task mode with probes", "deterministic simulation of pool/chain histories with boundary-value probe transactions evaluated through the real pool (dry-run accept) and through the node's block verification, against an independent rule evaluator over the reference model's context",
+ "C04": pool("§6 C04, §4 simnode pool task mode with probes", "deterministic simulation of pool/chain histories with boundary-value probe transactions (since, maturity, capacity, liveness, cell / header deps, dep groups, cycle limit) evaluated through the real pool (dry-run accept) and through the node's block verification, against an independent rule evaluator over the reference model's context",
    "At arbitrary points of seeded histories (reorgs, mined templates, pooled ancestors) probe transactions with exactly one field at/just before/just after a rule boundary (six since kinds and malformed encodings, cellbase maturity, capacity and occupied size, liveness/duplicates, cell and header deps, a witness-dependent lock) are judged by the pool and by block verification; the verdicts must equal the evaluator's in both directions. A chain-mode part commits conflicting twins of valid candidates that break one rule of their own (capacity, occupied size, NervosDAO maximum withdraw) through mutant blocks anywhere in trees with reorganisations. Exploration is the right level: contexts x probes is unbounded; boundaries are hit by construction because probes are built from the context at probe time."),
  "C12": pool("§6 C12, §4 simnode pool task mode", "deterministic simulation interleaving submissions (suspended at yield points), mined templates and model-built competing branches; pool vs reference-chain model at quiescent points",
    "At every quiescent point the pool must hold no committed transaction, no transaction whose input/dep is unknown to chain+pool, no double spend, and every entry's stage must equal the model's proposal-window membership. Three genuine defects (stale gap stage after reorg, expiry orphaning descendants, children of un-re-addable detached transactions) were found and fixed. The 'admissible detached txs are back' direction is not asserted."),
- "C13": pool("§6 C13, §4 simnode pool task mode", "deterministic simulation: templates requested at simulator-chosen instants are sealed and fed to the node's own chain stages; self-oracle plus independent model re-derivation",
+ "C13": pool("§6 C13, §4 simnode pool task mode", "deterministic simulation: templates requested at simulator-chosen instants (also under consensus limits small enough to be reached) are sealed and fed to the node's own chain stages; self-oracle plus independent model re-derivation",
    "Every template requested (also while block-assembler updates are still queued, right after reorgs, with uncles/proposals/commits) is sealed and imported by the same node: it must be accepted and become the tip when it names the tip, transactions parents-first; the reference model re-derives epoch, reward, DAO, chain root, window and uncle rules for each. Templates naming a stale parent are only stored as side blocks; they are counted as not verified, never as passes."),
 })
 
